@@ -2,6 +2,7 @@ package sim
 
 import (
 	"fmt"
+	"os"
 	"sort"
 	"time"
 )
@@ -15,6 +16,9 @@ type Violation struct {
 }
 
 // RunCtx carries everything one run reads and writes.
+// forceScenario (VERIF_FORCE) makes the rare long scenario families the rule, for self-tests and timing.
+var forceScenario = os.Getenv("VERIF_FORCE")
+
 type RunCtx struct {
 	Prop    string
 	Tier    string
